@@ -126,6 +126,20 @@ def t_nested_class_default(m, d1, d2, wd):
     return M, [("in_", "in", inner, {"x": d2})]
 
 
+def t_pattern_overlap(m, d1, d2, wd, typed=True):
+    """a defaulted declared property whose JSON name also matches a patternProperties regex"""
+    from vf.common import Object, Element, Property, Integer, AllOf
+
+    kw = (lambda d: {"default": d}) if wd else (lambda d: {})
+    pat = lambda: Integer(maximum=m)
+    e1 = lambda: AllOf(Integer(**kw(d1)), pat(), **kw(d1))
+    e2 = lambda: AllOf(Integer(minimum=0, **kw(d2)), pat(), **kw(d2))
+    props = {"ab": Property(Integer(**kw(d1))), "a_": Property(Integer(minimum=0, **kw(d2)), source="a")}
+    ckw = dict(patternProperties={"^a": pat()})
+    M = Object.inline("M", properties=props, **ckw) if typed else Element(properties=props, **ckw)
+    return M, [("ab", "ab", e1, d1), ("a_", "a", e2, d2)]
+
+
 def t_string(n, s, wd):
     from vf.common import Element, Property, String
 
@@ -157,6 +171,8 @@ def harnesses(ctx) -> List[H]:
         ("class_untyped", "m: int, d1: int, d2: int", "t_class(m, d1, d2, wd, False)", DV, pre_ab),
         ("parsed_typed", "m: int, d1: int, d2: int", "t_parsed(m, d1, d2, wd, True)", DV, ["len(v) <= 2", "all(k in ('a', 'a b', 'x') for k in v)"]),
         ("parsed_untyped", "m: int, d1: int, d2: int", "t_parsed(m, d1, d2, wd, False)", DV, ["len(v) <= 2", "all(k in ('a', 'a b', 'x') for k in v)"]),
+        ("pattern_overlap_typed", "m: int, d1: int, d2: int", "t_pattern_overlap(m, d1, d2, wd, True)", DV, ["len(v) <= 2", "all(k in ('a', 'ab', 'x') for k in v)"]),
+        ("pattern_overlap_untyped", "m: int, d1: int, d2: int", "t_pattern_overlap(m, d1, d2, wd, False)", DV, ["len(v) <= 2", "all(k in ('a', 'ab', 'x') for k in v)"]),
         ("class_default", "m: int, d1: int, d2: int", "t_class_default(m, d1, d2, wd)", DV, pre_ab),
         ("nested_class_default", "m: int, d1: int, d2: int", "t_nested_class_default(m, d1, d2, wd)", "Dict[str, Dict[str, int]]", ["len(v) <= 1", "all(k in ('in', 'x') for k in v)", "all(len(x) <= 1 and all(k in ('x', 'y') for k in x) for x in v.values())"]),
         ("nested", "m: int, d: int", "t_nested(m, d, wd)", "Dict[str, List[int]]", ["len(v) <= 1", "all(k in ('arr', 'x') for k in v)", "all(len(x) <= 2 for x in v.values())"]),
@@ -202,4 +218,11 @@ def _demo_renamed_default():
     return isinstance(M({}).b_, NotPassed)
 
 
-DEMOS = {"C05-renamed-default": _demo_renamed_default}
+def _demo_pattern_overlap():
+    from vf.common import Element, Property, Integer, NotPassed
+
+    E = Element(properties={"ab": Property(Integer(default=5))}, patternProperties={"^a": Integer(maximum=9)})
+    return isinstance(E({})["ab"], NotPassed)
+
+
+DEMOS = {"C05-renamed-default": _demo_renamed_default, "C05-pattern-overlap-default": _demo_pattern_overlap}
